@@ -889,9 +889,9 @@ pub fn check_callother_project(base: &Project, state_seed: u64, n_states: usize,
 }
 
 fn run(cfg: &Cfg) -> Report {
-    let shards = cfg.tier.pick(256usize, 4096usize);
-    let per_shard = cfg.tier.pick(40usize, 60usize);
-    let n_states = cfg.tier.pick(16usize, 96usize);
+    let shards = cfg.tier.pick(256usize, 2048usize);
+    let per_shard = cfg.tier.pick(40usize, 50usize);
+    let n_states = cfg.tier.pick(16usize, 64usize);
     par_shards(cfg, "c10", shards, |idx, rng, rep| {
         for i in 0..per_shard {
             let callother = idx % 8 == 7;
